@@ -43,15 +43,43 @@ void simfs_put(const char *path, const void *data, size_t len) {
 }
 void simfs_unlink_node(FsNode *n) { n->links = 0; }
 
+/* lexical normalisation of an absolute path: "//", "/./", "/x/../" */
+static void normalise(char *p) {
+    char *out = p, *in = p;
+    while (*in) {
+        if (in[0] == '/' && in[1] == '/') { in++; continue; }
+        if (in[0] == '/' && in[1] == '.' && (in[2] == '/' || in[2] == 0)) { in += 2; if (!*in && out == p) *out++ = '/'; continue; }
+        if (in[0] == '/' && in[1] == '.' && in[2] == '.' && (in[3] == '/' || in[3] == 0)) {
+            in += 3;
+            while (out > p && out[-1] != '/') out--;
+            if (out > p) out--;
+            if (!*in && out == p) *out++ = '/';
+            continue;
+        }
+        *out++ = *in++;
+    }
+    *out = 0;
+}
 /* resolve a path of the current process; returns NULL when it is not ours */
 static const char *resolve(const char *path, char *tmp, size_t tsz) {
     if (!path) return NULL;
-    if (path[0] == '/') return simfs_owns(path) ? path : NULL;
+    if (path[0] == '/') {
+        if (!strstr(path, "/.") && !strstr(path, "//")) return simfs_owns(path) ? path : NULL;
+        snprintf(tmp, tsz, "%s", path); normalise(tmp);
+        return simfs_owns(tmp) ? tmp : NULL;
+    }
     SimProc *p = sim_cur_proc();
     if (p && strncmp(p->cwd, "/sim/", 5) == 0) {
-        while (path[0] == '.' && path[1] == '/') path += 2;
-        snprintf(tmp, tsz, "%s/%s", p->cwd, path);
-        return tmp;
+        snprintf(tmp, tsz, "%s/%s", p->cwd, path); normalise(tmp);
+        return simfs_owns(tmp) ? tmp : NULL;
+    }
+    return NULL;
+}
+FsNode *simfs_find_prefix(const char *prefix, const char *suffix) {
+    size_t pl = strlen(prefix), sl = strlen(suffix);
+    for (int i = nnodes - 1; i >= 0; i--) {
+        size_t l = strlen(nodes[i]->path);
+        if (l >= pl + sl && strncmp(nodes[i]->path, prefix, pl) == 0 && strcmp(nodes[i]->path + l - sl, suffix) == 0) return nodes[i];
     }
     return NULL;
 }
